@@ -227,6 +227,7 @@ class D(StateMachine):
     def jump(self):
         LOG.append("jump")
         return "J"
+    start = Event(a.to(b), id="begin")               # an explicit Event whose own id is not the attribute name
 
 class T:
     pass
@@ -240,23 +241,23 @@ def run_entry_probes(desc):
     kept: it is an entry point of its machine, not a weak handle."""
     import gc
 
-    from statemachine import State, StateMachine
+    from statemachine import Event, State, StateMachine
     from statemachine.exceptions import TransitionNotAllowed
 
     counters = {"entry_probes": 0}
     violations = []
     for rep in range(desc.get("count", 20)):
         log = []
-        ns = {"State": State, "StateMachine": StateMachine, "LOG": log, "__name__": "vmon_c13e"}
+        ns = {"State": State, "StateMachine": StateMachine, "Event": Event, "LOG": log, "__name__": "vmon_c13e"}
         with warnings.catch_warnings():
             warnings.simplefilter("ignore")
             problems = []
             try:
                 exec(compile(ENTRY_SRC, "<c13-entry>", "exec"), ns)
                 sm = ns["D"]()
-                if sorted(str(e) for e in sm.events) != ["back", "ev", "jump"]:
+                if sorted(str(e) for e in sm.events) != ["back", "ev", "jump", "start"]:
                     problems.append(f"events {[str(e) for e in sm.events]}")
-                if sorted(str(e) for e in sm.allowed_events) != ["ev", "jump"]:
+                if sorted(str(e) for e in sm.allowed_events) != ["ev", "jump", "start"]:
                     problems.append(f"allowed_events in a: {[str(e) for e in sm.allowed_events]}")
                 style = ["method", "send", "item"][rep % 3]
                 for name, ret, tag, dst in (("ev", "H", "helper", "b"), ("back", "L", "lam", "a"), ("jump", "J", "jump", "b")):
@@ -271,7 +272,11 @@ def run_entry_probes(desc):
                         problems.append(f"{style} {name}: returned {res!r}, callbacks {log}, state {sm.current_state.id}")
                     if name == "jump":
                         sm.send("back")
-                for bad in ("helper", "<lambda>"):
+                getattr(sm, "start")() if style == "method" else sm.send("start")
+                if sm.current_state.id != "b":
+                    problems.append(f"{style} start: state {sm.current_state.id}")
+                sm.send("back")
+                for bad in ("helper", "<lambda>", "begin"):
                     try:
                         sm.send(bad)
                         problems.append(f"send({bad!r}) accepted")
